@@ -52,6 +52,7 @@ def run_history(r, module, letter, spec, cls, n_ops, stream, ctx, lines, pend):
             out.append(d)
         return out
     planted_ts = set()
+    shared_input = [None]
     for step in range(n_ops):
         kind = r.choice(["C", "C", "S", "RS", "AP", "AC", "N", "FRESH"]) if recs else "C"
         try:
@@ -67,6 +68,10 @@ def run_history(r, module, letter, spec, cls, n_ops, stream, ctx, lines, pend):
                 raw = fixed_raw if kind == "FRESH" else schemaio.gen_record(r, spec, fill=r.choice([0.2, 0.6]))[0]
                 # give header records an explicit timestamp so that the clock does not enter the comparison
                 rec_list = codec.decode_record(raw)
+                if kind == "C" and shared_input[0] is not None and r.random() < 0.25:
+                    # the very same input objects (nested lists included) are handed to a second record: the records
+                    # must not end up sharing them
+                    rec_list = shared_input[0]
                 names = [f["name"] for f in spec["fields"]]
                 if "timestamp" in names:
                     i = names.index("timestamp")
@@ -74,6 +79,7 @@ def run_history(r, module, letter, spec, cls, n_ops, stream, ctx, lines, pend):
                     if rec_list[i] is None:
                         rec_list[i] = NOW
                 obj = cls(*rec_list)
+                shared_input[0] = rec_list
                 recs.append(obj)
                 ops_wire.append("C %s %s %s" % (letter, codecio.cps(NOW), codecio.record_wire(rec_list)))
                 if kind == "FRESH":
@@ -218,7 +224,192 @@ def run(ctx):
             d.fail({"module": module, "letter": letter, "before": repr(fresh1)[:200], "after": repr(fresh2)[:200]},
                    "modifying a default-constructed record changed what later default-constructed records contain",
                    "defaults/leak")
-    return [s, d]
+    streams = [s, d]
+
+    streams.append(order_stream(ctx))
+    streams.append(foreign_schema_stream(ctx))
+    return streams
+
+
+def foreign_schema_stream(ctx):
+    """records of the shipped schemas must not depend on what *other* schemas were declared and filled in the process:
+    a site declares its own record classes with the same field kinds and every option (lengths on sets and integers,
+    inner fields, defaults); the shipped classes render fixed inputs the same before and after that"""
+    from senaite.astm import codec, fields as F
+    from senaite.astm.mapping import Component, Record
+    fs = Stream("after-foreign-schemas")
+    r = ctx.rng("C20.foreign")
+
+    def snapshot():
+        out = {}
+        for module, letter, spec in schemaio.record_specs():
+            cls = schemaio.real_class(module, letter)
+            if cls is None:
+                continue
+            rr = common.rng("C20.foreign.%s.%s" % (module, letter))
+            for k, fill in enumerate((0.0, 0.5, 0.95)):
+                raw = schemaio.gen_record(rr, spec, fill=fill)[0]
+                rec = codec.decode_record(raw)
+                names = [n for n, _f in cls._fields]
+                if "timestamp" in names:
+                    i = names.index("timestamp")
+                    rec = rec + [None] * (i + 1 - len(rec))
+                    rec[i] = rec[i] or "20240101000000"
+                try:
+                    out[(module, letter, k)] = (raw.hex(), cls(*rec).to_dict())
+                except Exception as e:  # noqa
+                    out[(module, letter, k)] = (raw.hex(), "ERR " + type(e).__name__)
+        return out
+    before = snapshot()
+    # --- a foreign schema using every field kind and option, filled with valid and invalid values in every way
+    Comp = Component.build(F.TextField(name="a", length=3), F.IntegerField(name="n", length=2),
+                           F.SetField(name="s", values=("x", "yy"), length=2),
+                           F.SetField(name="si", values=(1, 2, 30), field=F.IntegerField(), length=2))
+    Rec = Record.build(F.ConstantField(name="type", default="Z"),
+                       F.SetField(name="flag", values=("A", "BB", "CCC"), length=3, default="A"),
+                       F.SetField(name="flag1", values=("A", "B"), length=1),
+                       F.SetField(name="num", values=(1, 2, 3), field=F.IntegerField(), length=1),
+                       F.TextField(name="t", length=5, default="d"), F.IntegerField(name="i", length=4),
+                       F.DateTimeField(name="ts"), F.DateField(name="d"), F.TimeField(name="tm"),
+                       F.ComponentField(Comp, name="c"), F.RepeatedComponentField(Comp, name="rc"),
+                       F.ConstantField(name="k", default=7, field=F.IntegerField()), F.NotUsedField(name="u"),
+                       F.DecimalField(name="dec"), F.TextField(name="t2", length=1), F.Field(name="plain", length=2))
+    vals = ["A", "BB", "CCC", "DDDD", "1", "2", "30", "007", "x", "yy", "abc", "abcdef", "20230101", "20230101120000", "1230",
+            "", None, ["x", "1", "yy", "2"], [["abc", "1"], ["a"]], ["toolong", "x"], 5, 1, "Z", "7", " 7 "]
+    names = [n for n, _f in Rec._fields]
+    for _ in range(400 if ctx.thorough else 120):
+        kw = {}
+        for n in r.sample(names, r.randrange(0, 6)):
+            kw[n] = r.choice(vals)
+        try:
+            obj = Rec(**kw)
+        except Exception:
+            obj = None
+        if obj is not None:
+            for n in r.sample(names, 3):
+                try:
+                    setattr(obj, n, r.choice(vals))
+                except Exception:
+                    pass
+            try:
+                obj.rc.append(r.choice(vals))
+                obj.rc.extend([r.choice(vals)])
+                obj.to_dict()
+                obj.to_astm()
+            except Exception:
+                pass
+    after = snapshot()
+    for key in before:
+        fs.case({"module": key[0], "letter": key[1], "input": before[key][0]})
+        if after.get(key) != before[key]:
+            fs.fail({"module": key[0], "letter": key[1], "record": before[key][0], "before": repr(before[key][1])[:300],
+                     "after": repr(after.get(key, (None, None))[1])[:300]},
+                    "a record of a shipped schema renders differently after records of an unrelated schema were declared "
+                    "and filled in the same process", "foreign/differs")
+            break
+    return fs
+
+
+def order_stream(ctx):
+    # "regardless of what was built before" across classes: anything remembered per class (or per base class) depends on
+    # which class a process happens to use first, so the same fixed records are built in fresh interpreters in the
+    # orders  generic classes -> instrument classes, instrument -> generic, and instrument alone; every record must
+    # render the same in all three
+    o = Stream("fresh-process-order")
+    import subprocess
+    import sys
+    jobs = {}
+    inputs = {}
+    for module, letter, spec in schemaio.record_specs():
+        rr = common.rng("C20.order.%s.%s" % (module, letter))
+        raws = [schemaio.gen_record(rr, spec, fill=f)[0] for f in (0.0, 0.3, 0.9)]
+        inputs.setdefault(module, []).append((letter, [x.hex() for x in raws]))
+    mods = [m for m in inputs if m != "generic"]
+    if not ctx.thorough:
+        mods = mods[ctx.rng("C20.order").randrange(3)::3] + [m for m in mods if m in ("roche_cobas_c111", "horiba_yumizen_h5xx", "sysmex_xn")]
+        mods = sorted(set(mods))
+    prog = r'''
+import sys, json
+sys.path.insert(0, %r)
+import logging; logging.disable(logging.CRITICAL)
+import warnings; warnings.simplefilter("ignore")
+from harness import schemaio
+from senaite.astm import codec
+order, inputs = json.loads(sys.stdin.read())
+out = {}
+from senaite.astm.wrapper import Wrapper
+from harness.props import C11
+from harness import gens
+for module in order:
+    # the record classes as a received message gets them: through the Wrapper's schema selection on the
+    # instrument's own header frame (the shipped dump) resp. a header naming no supported model
+    header = (gens.frame(1, b"H|\\^&|||ACME^1|||||||P|1|20240101120000", True) if module == "generic"
+              else C11.dump_frames(C11.DUMP_OF[module])[0])
+    mapping = Wrapper([header]).mapping
+    for letter, raws in inputs[module]:
+        cls = mapping.get(letter)
+        if cls is None:
+            out["%%s/%%s/missing" %% (module, letter)] = "record type not in the selected mapping"
+            continue
+        if cls is not schemaio.real_class(module, letter):
+            out["%%s/%%s/class" %% (module, letter)] = "selected class %%r is not the one %%s declares" %% (cls, module)
+        for k, raw in enumerate(raws):
+            rec = codec.decode_record(bytes.fromhex(raw))
+            try:
+                d = cls(*rec).to_dict()
+                names = [n for n, _f in cls._fields]
+                if "timestamp" in names:
+                    i = names.index("timestamp")
+                    if not (len(rec) > i and rec[i] is not None):
+                        d["timestamp"] = "<now>"
+                out["%%s/%%s/%%d" %% (module, letter, k)] = d
+            except Exception as e:
+                out["%%s/%%s/%%d" %% (module, letter, k)] = "ERR " + type(e).__name__
+print(json.dumps(out, sort_keys=True, default=str))
+''' % common.VERIF
+    procs = []
+    for m in mods:
+        for name, order in (("generic-first", ["generic", m]), ("instrument-first", [m, "generic"]), ("alone", [m])):
+            p_ = subprocess.Popen([sys.executable, "-c", prog], stdin=subprocess.PIPE, stdout=subprocess.PIPE,
+                                  stderr=subprocess.DEVNULL, cwd=common.VERIF)
+            p_.stdin.write(json.dumps([order, {k: inputs[k] for k in order}]).encode())
+            p_.stdin.close()
+            procs.append((m, name, p_))
+    results = {}
+    for m, name, p_ in procs:
+        outb = p_.stdout.read()
+        p_.wait()
+        try:
+            results[(m, name)] = json.loads(outb.decode())
+        except Exception:
+            results[(m, name)] = None
+    for m in mods:
+        base = results.get((m, "alone"))
+        for name in ("generic-first", "instrument-first"):
+            got = results.get((m, name))
+            case = {"module": m, "order": name}
+            o.case(case)
+            if base is None or got is None:
+                o.fail(case, "the interpreter building the records in this order failed", "order/crash")
+                continue
+            diff = sorted(k for k in set(base) | set(x for x in got if x.startswith(m + "/")) if got.get(k) != base.get(k))
+            if diff:
+                k0 = diff[0]
+                o.fail(dict(case, record=k0, alone=json.dumps(base.get(k0))[:300], in_this_order=json.dumps(got.get(k0))[:300],
+                            input=(dict(inputs[m])[k0.split("/")[1]][int(k0.split("/")[2])] if k0.split("/")[2].isdigit() else None)),
+                       "record %s renders differently when other classes were used first in the process" % k0,
+                       "order/differs")
+        gbase = None
+        for name in ("generic-first", "instrument-first"):
+            got = results.get((m, name)) or {}
+            g = {k: v for k, v in got.items() if k.startswith("generic/")}
+            if gbase is None:
+                gbase = g
+            elif g != gbase:
+                k0 = [k for k in g if g[k] != gbase.get(k)][0]
+                o.fail({"module": m, "record": k0}, "generic record %s renders differently depending on whether %s was used first" % (k0, m),
+                       "order/generic-differs")
+    return o
 
 
 def search(ctx, disagreements):
